@@ -17,7 +17,7 @@ func (e *Engine) newFT(fn *ssa.Function, con *FnContract) *FT {
 	return &FT{e: e, fn: fn, con: con, declared: map[string]bool{}, strLits: map[string]string{}, abstractions: map[string]int{},
 		trusted: map[string]bool{}, loopWrites: map[*ssa.BasicBlock]map[string][]writeRec{}, usedFns: map[string]bool{},
 		entry: State{}, counters: map[string]int{}, nonNil: map[string]bool{}, usedSpec: map[string]bool{}, globalsUsed: map[string]bool{},
-		unconstrained: map[string]bool{}, callSiteHits: map[*Clause]int{}, paramCVs: map[string]*CV{}, invHit: map[*Clause]bool{}}
+		unconstrained: map[string]bool{}, callSiteHits: map[*Clause]int{}, paramCVs: map[string]*CV{}, invHit: map[*Clause]bool{}, refSources: map[string]bool{}, namedLits: map[string]string{}}
 }
 
 // Verify translates fn under its contract and returns the translation with
@@ -30,6 +30,7 @@ func (e *Engine) Verify(fn *ssa.Function, con *FnContract) *FT {
 	// pass 2
 	ft := e.newFT(fn, con)
 	ft.loopWrites = p1.loopWrites
+	ft.refSources = p1.refSources
 	ft.translate()
 	return ft
 }
@@ -121,7 +122,7 @@ func (ft *FT) invariantMatched(b *Body, c *Clause) bool {
 
 // exit joins all returns and generates the postcondition obligations.
 func (ft *FT) exit(b *Body) {
-	if ft.collect || ft.con == nil {
+	if ft.con == nil {
 		return
 	}
 	fn := ft.fn
@@ -234,6 +235,11 @@ func (ft *FT) background() (head []string, facts []*T) {
 		if isLowerHex(s) {
 			facts = append(facts, A("canonhex", L(n)))
 		}
+	}
+	for _, sv := range sortedKeys(ft.namedLits) {
+		n := ft.namedLits[sv]
+		lits = append(lits, n)
+		facts = append(facts, Eq(A("slen", L(n)), Int(int64(len(sv)))))
 	}
 	if len(lits) > 0 {
 		args := []*T{L("str.empty")}
